@@ -5,6 +5,12 @@ rc_bin("c13_rc", ["harness/c13_log_content.cc"], lib=True)
 # unspecified evaluation order (variadic EmitLogRecord argument application) differs between the two compilers
 rc_bin("c13_gxx", ["harness/c13_log_content.cc"], lib=True, cxx="g++")
 rc_bin("c13_tsan", ["harness/c13_log_content.cc"], lib=True, san="tsan")
+# ASan without quarantine.  Given as a complete ASAN_OPTIONS value through env= (not asan_extra=) because the
+# driver passes a run's env - but not its asan_extra - to the confirmation replays of a failure as well; the
+# other settings are the ones ./check uses for every run (asan_env).
+NOQUARANTINE = dict(ASAN_OPTIONS="detect_leaks=1:abort_on_error=0:allocator_may_return_null=1:"
+                    "detect_stack_use_after_return=1:symbolize=1:handle_abort=0:malloc_context_size=6:exitcode=99:"
+                    "strict_string_checks=1:quarantine_size_mb=0:thread_local_quarantine_size_kb=0")
 PROPS["C13"] = dict(
     level_text="Model-based property tests: generated emit programs (57 precompiled call forms: argument orders of the variadic "
                "EmitLogRecord and the severity helper templates incl. overlapping arguments; body passed as AttributeValue / "
@@ -15,9 +21,14 @@ PROPS["C13"] = dict(
                "CreateLogRecord + setters in generated order + EmitLogRecord(record) or EmitLogRecord(record, args...); "
                "every body/attribute value alternative; nested context frames: DefaultSpan with a valid or an invalid context, "
                "a SpanContext stored under the span key, a null pointer / non-span value under the span key, an unrelated key on "
-               "top, real SDK spans (recording, ended, dropped by the sampler); enabled/disabled loggers, null records, 1..3 "
-               "simple/batch processors) are compared inside each exporter's Export with a reference record model; caller storage "
-               "is scribbled and freed as soon as Emit returns so ASan and the content comparison expose retained pointers.",
+               "top, real SDK spans (recording, ended, dropped by the sampler); span churn bursts (emit under span A, A released, span B "
+               "started at A's address, emit under B); enabled/disabled loggers under a deny-list or an allow-list scope "
+               "configurator, records created by one logger and emitted through another one (enabled or disabled) of the same "
+               "provider, null records, 0..3 simple/batch processors of which some join later through "
+               "LoggerProvider::AddProcessor - also between CreateLogRecord and EmitLogRecord) are compared inside each "
+               "exporter's Export with a reference record model; caller storage "
+               "is scribbled and freed as soon as Emit returns so ASan and the content comparison expose retained pointers; "
+               "two runs switch ASan's quarantine off so that freed blocks (spans, records, caller buffers) are reused at once.",
     technique="model-based PBT (reference log-record model) over generated emit programs with short-lived caller storage; rapidcheck; real threads for the per-thread active span clause",
     rule="A case = provider configuration + emit program(s).",
     assumptions=[
@@ -36,19 +47,48 @@ PROPS["C13"] = dict(
         "the values seen by the exporter are copied out of the record's AttributeValue views by the harness' own visitor "
         "(a const char* alternative is read up to its NUL inside Export)",
         "the multi-thread target owns no schedule: it adds evidence only",
+        "a record created by one enabled logger and emitted through another enabled logger of the same provider is exported "
+        "exactly once; the statement does not say whose instrumentation scope it carries: the emitting logger's (what the "
+        "code does) and the creating logger's are both accepted.  Emitted through a DISABLED logger nothing may be exported, "
+        "whoever created the record",
+        "a disabled logger's record (the API's NoopLogRecord) emitted through an ENABLED logger is not generated: "
+        "sdk Logger::EmitLogRecord static_casts it to sdk::logs::Recordable, which is undefined behaviour on the unchanged tree "
+        "(UBSan downcast report at logger.cc:119, SIGSEGV in the plain build); the statement speaks about records that carry "
+        "supplied content, so this is recorded as an observation outside it (tag 'cross-logger:disabled->enabled (not generated...)')",
+        "LoggerProvider::AddProcessor between CreateLogRecord and EmitLogRecord(record): 'every configured processor' is read "
+        "as every processor that was configured when the record was CREATED (must get it exactly once, full content); a "
+        "processor added after the creation may or may not get the record, and if it does the content must be complete; "
+        "AddProcessor is documented as not thread safe, so the multi-thread targets add the held back processors before the "
+        "threads start",
+        "every exporter must only be handed recordables of the type its own MakeRecordable() returns (all in-tree exporters "
+        "static_cast what they get); the harness exporter checks that with a dynamic_cast before reading anything",
+        "every case starts with one record created under a process-lifetime sentinel span through a separate provider without "
+        "processors, so that per-thread state the library might keep about 'the last span seen' cannot leak from the previous "
+        "case: a failing case is self-contained and its replay fails in a fresh process",
+        "span churn with a DefaultSpan places span B in the storage span A occupied (harness-owned slot, placement new): the "
+        "address reuse a production allocator shows for back-to-back spans does not depend on the sanitizer's quarantine then; "
+        "for SDK spans (allocated inside the tracer) the runs 'program-reuse' / 'threads-reuse' (ASan, quarantine off) and the "
+        "TSan runs (no quarantine) provide the reuse",
         SC_NOTE,
     ],
     runs=[
-        run("program", "c13_rc", "log_program", "rc", dict(procs=8, cases=9000), dict(procs=16, cases=80000)),
+        run("program", "c13_rc", "log_program", "rc", dict(procs=8, cases=12000), dict(procs=16, cases=80000)),
+        # the same programs with ASan's quarantine switched off: a freed block is handed out again by the very next
+        # allocation of its size class, so "span A ends, span B starts" puts B at A's address (anything keyed on an
+        # object address goes stale) and a retained view reads the NEXT owner's bytes (content comparison)
+        run("program-reuse", "c13_rc", "log_program", "rc", dict(procs=3, cases=12000), dict(procs=4, cases=60000),
+            env=NOQUARANTINE),
+        run("threads-reuse", "c13_rc", "log_threads", "rc", dict(procs=1, cases=600), dict(procs=2, cases=6000),
+            deterministic=False, env=NOQUARANTINE),
         # f5_witness is only ever replayed (known/C13/F5.json); it has no search budget
         run("f5-witness", "c13_rc", "f5_witness", "rc", None, None),
         # fixed witness of finding C13-eventid-noname (fixed; regression replay replays/C13/C13-eventid-noname.json);
         # replay only, no search budget
         run("eventid-noname-witness", "c13_rc", "eventid_noname_witness", "rc", None, None),
         run("threads", "c13_rc", "log_threads", "rc", dict(procs=3, cases=600), dict(procs=6, cases=6000), deterministic=False),
+        run("program-g++", "c13_gxx", "log_program", "rc", dict(procs=2, cases=6000), dict(procs=4, cases=30000), replay_bin="c13_gxx"),
         # the same sequential programs under the TSan build: no quarantine, so freed spans/records are reused at once
-        run("program-g++", "c13_gxx", "log_program", "rc", dict(procs=2, cases=2500), dict(procs=4, cases=30000), replay_bin="c13_gxx"),
-        run("program-tsan", "c13_tsan", "log_program", "rc", dict(procs=2, cases=500), dict(procs=4, cases=8000), replay_bin="c13_tsan"),
-        run("threads-tsan", "c13_tsan", "log_threads", "rc", dict(procs=2, cases=250), dict(procs=4, cases=4000), deterministic=False, replay_bin="c13_tsan"),
+        run("program-tsan", "c13_tsan", "log_program", "rc", dict(procs=2, cases=5000), dict(procs=4, cases=40000), replay_bin="c13_tsan"),
+        run("threads-tsan", "c13_tsan", "log_threads", "rc", dict(procs=2, cases=1500), dict(procs=4, cases=8000), deterministic=False, replay_bin="c13_tsan"),
     ],
 )
